@@ -1,11 +1,22 @@
 //! C02: signature verification never succeeds without a verified signature.
 //!
 //! ops
-//! * `vsig PATTERN B64TABLE BYTES`      `Package::parse(BYTES)?.verify_signature(&recording_verifier)`; the verifier accepts
+//! * `vsig PATTERN B64TABLE BYTES [PKTTABLE]`  `Package::parse(BYTES)?.verify_signature(&recording_verifier)`; the verifier accepts
 //!                                      its i-th consult iff PATTERN[i] == '1' (beyond the pattern: reject) and records what it
-//!                                      was given. Observation: `ok|err` + `[len:fnv(data):siglen:fnv(sig):acc;…]`, or `parse-err`.
+//!                                      was given. Observation: `ok|err` + `[len:fnv(data):siglen:fnv(sig):acc;…]`, then
+//!                                      ` keyids=<id+id|none|err:CLASS>` = `signature_key_ids()` on the same package (its OWN inline
+//!                                      base64 decoder, `package.rs:297`, meets every malformed text the first one meets; CLASS =
+//!                                      b64 | nosig | issuer-count:N | other) and ` echo=<h|c><len>:<first bytes>;…|-` = what
+//!                                      `signature::echo_signature` handed to a Debug logger (scope header-only / header-and-content,
+//!                                      `signature.len()`, the printed slice); or `parse-err`.
 //!                                      B64TABLE (`text=decoded|!` pairs, what pgp's lenient base64 decoder makes of every OPENPGP
-//!                                      entry text) is computed by `gen` for the driver; `eval` ignores it.
+//!                                      entry text) and PKTTABLE (the real signature packets among the entries, as for `sigpkts`)
+//!                                      are computed by `gen` for the driver; `eval` ignores them.
+//! * `forge02 KEY OFF DEL INS B64TABLE BYTES`  "right key, different data": BYTES (built and signed by the library) with DEL bytes at
+//!                                      OFF replaced by INS, and then every recorded digest RECOMPUTED over the edited package
+//!                                      (PAYLOADDIGEST in the main header, then SHA256 / SHA1 / MD5 in the signature header; see
+//!                                      `forge`), the signatures kept: `verify=ok|err|parse-err forged=<fnv of the forged bytes>`.
+//!                                      The digest check cannot stop such a package; only the signature can.
 //! * `vorig KEY BYTES`                  the signed package verifies with its own public key: `verify=ok|err|parse-err`
 //! * `vflip KEY BIT BYTES`              the same after flipping bit BIT (bit 0 = most significant bit of byte 0)
 //! * `vedit KEY OFF DEL INS BYTES`      the same after replacing DEL bytes at OFF by INS
@@ -66,17 +77,68 @@ impl rpm::signature::Verifying for Recording {
     }
 }
 
+/* a logger that keeps what `signature::echo_signature` formats (Debug level), per thread */
+thread_local! {
+    static ECHO: RefCell<Vec<String>> = RefCell::new(Vec::new());
+}
+struct EchoLogger;
+impl log::Log for EchoLogger {
+    fn enabled(&self, _: &log::Metadata) -> bool { true }
+    fn log(&self, r: &log::Record) {
+        let text = format!("{}", r.args());
+        if text.starts_with("signature_header(") {
+            ECHO.with(|e| e.borrow_mut().push(text));
+        }
+    }
+    fn flush(&self) {}
+}
+static ECHO_LOGGER: EchoLogger = EchoLogger;
+
+/// `scope: [len=N] [ 0xAB, … ] ...` → `<h|c>N:ab…` (values only: which scope, the printed length, the printed bytes)
+fn echo_entry(text: &str) -> String {
+    let scope = if text.starts_with("signature_header(header only)") { 'h' }
+        else if text.starts_with("signature_header(header and content)") { 'c' } else { '?' };
+    let len: String = text.split("[len=").nth(1).map(|t| t.chars().take_while(|c| c.is_ascii_digit()).collect()).unwrap_or_default();
+    let mut bytes = String::new();
+    let tail = text.split("[len=").nth(1).unwrap_or("");
+    let mut it = tail.split("0x");
+    it.next();
+    for t in it {
+        let h: String = t.chars().take_while(|c| c.is_ascii_hexdigit()).collect();
+        bytes.push_str(&h.to_ascii_lowercase());
+    }
+    format!("{}{}:{}", scope, len, if bytes.is_empty() { ".".to_string() } else { bytes })
+}
+
+/// `signature_key_ids()` as `<id+id|none|err:CLASS>`
+fn key_ids_obs(p: &rpm::Package) -> String {
+    match p.signature_key_ids() {
+        Ok(v) if v.is_empty() => "none".to_string(),
+        Ok(v) => v.join("+"),
+        Err(rpm::Error::Io(_)) => "err:b64".to_string(),
+        Err(rpm::Error::NoSignatureFound) => "err:nosig".to_string(),
+        Err(rpm::Error::UnexpectedIssuerCount(n)) => format!("err:issuer-count:{}", n),
+        Err(_) => "err:other".to_string(),
+    }
+}
+
 fn vsig(pattern: &str, bytes: &[u8]) -> String {
     let p = match rpm::Package::parse(&mut &bytes[..]) {
         Ok(p) => p,
         Err(_) => return "parse-err".into(),
     };
+    let _ = log::set_logger(&ECHO_LOGGER);
+    log::set_max_level(log::LevelFilter::Debug);
     let pat: Vec<bool> = if pattern == "-" { vec![] } else { pattern.bytes().map(|c| c == b'1').collect() };
     let rec = Recording { pattern: pat, log: RefCell::new(vec![]) };
+    ECHO.with(|e| e.borrow_mut().clear());
     let r = p.verify_signature(&rec);
+    let echoed: Vec<String> = ECHO.with(|e| e.borrow().iter().map(|t| echo_entry(t)).collect());
+    log::set_max_level(log::LevelFilter::Off);
     let log: Vec<String> =
         rec.log.borrow().iter().map(|(l, d, sl, s, a)| format!("{}:{:016x}:{}:{:016x}:{}", l, d, sl, s, *a as u8)).collect();
-    format!("{}[{}]", if r.is_ok() { "ok" } else { "err" }, log.join(";"))
+    format!("{}[{}] keyids={} echo={}", if r.is_ok() { "ok" } else { "err" }, log.join(";"), key_ids_obs(&p),
+        if echoed.is_empty() { "-".to_string() } else { echoed.join(";") })
 }
 
 /* ---------------------------------------------------------------------------------------------
@@ -136,9 +198,79 @@ pub fn splice(bytes: &[u8], off: usize, del: usize, ins: &[u8]) -> Vec<u8> {
     v
 }
 
+fn be32_at(b: &[u8], i: usize) -> Option<usize> {
+    Some(u32::from_be_bytes([*b.get(i)?, *b.get(i + 1)?, *b.get(i + 2)?, *b.get(i + 3)?]) as usize)
+}
+
+/// position (in the file) of the data of the FIRST index entry with tag `tag` of the header whose intro starts at `h0`,
+/// provided its type is `ty`; and the end of that header's store
+fn entry_pos(b: &[u8], h0: usize, tag: u32, ty: u32) -> Option<(usize, usize)> {
+    let n = be32_at(b, h0 + 8)?;
+    let dl = be32_at(b, h0 + 12)?;
+    let store = h0.checked_add(16)?.checked_add(n.checked_mul(16)?)?;
+    let end = store.checked_add(dl)?;
+    if end > b.len() { return None; }
+    for i in 0..n {
+        let e = h0 + 16 + 16 * i;
+        if be32_at(b, e)? == tag as usize {
+            if be32_at(b, e + 4)? != ty as usize { return None; }
+            return Some((store.checked_add(be32_at(b, e + 8)?)?, end));
+        }
+    }
+    None
+}
+
+/// overwrite `new.len()` bytes at `pos` if they lie inside the store and (for text) a NUL follows them there
+fn patch(b: &mut [u8], pos_end: Option<(usize, usize)>, new: &[u8], text: bool) {
+    if let Some((pos, end)) = pos_end {
+        let stop = pos + new.len();
+        if stop + (text as usize) <= end && (!text || b[stop] == 0) {
+            b[pos..stop].copy_from_slice(new);
+        }
+    }
+}
+
+/// the forger: edit, then make every recorded digest fit the edited package, leave the signatures alone.
+/// 1. splice; 2. if rpm-rs does not parse the result, that is it; 3. PAYLOADDIGEST (first main-header entry with tag 5092, type
+/// STRING_ARRAY): its first 64 characters := hex SHA-256 of everything behind the main header; 4. parse again, re-serialise the main
+/// header the way `verify_digests` does (`Header::write`) = HB; 5. signature header: SHA256 (273, STRING) := hex SHA-256(HB),
+/// SHA1 (269, STRING) := hex SHA-1(HB), MD5 (1004, BIN) := MD5(HB ++ payload). Positions are read from the raw index
+/// (first entry with the tag; nothing is patched if its type is another one or the bytes do not lie in the store).
+pub fn forge(orig: &[u8], off: usize, del: usize, ins: &[u8]) -> Vec<u8> {
+    let mut e = splice(orig, off, del, ins);
+    let Ok(m) = rpm::PackageMetadata::parse(&mut &e[..]) else { return e };
+    let o = m.get_package_segment_offsets();
+    let (h0, p0) = (o.header as usize, o.payload as usize);
+    if p0 > e.len() { return e; }
+    let pd = hex::encode(sha2::Sha256::digest(&e[p0..]));
+    let pos = entry_pos(&e, h0, TAG_PD, 8);
+    patch(&mut e, pos, pd.as_bytes(), true);
+    let Ok(m) = rpm::PackageMetadata::parse(&mut &e[..]) else { return e };
+    // `Header::write` is crate-private: write the metadata and cut the main header out at the reported offsets
+    let mut w = Vec::new();
+    if m.write(&mut w).is_err() { return e; }
+    let o2 = m.get_package_segment_offsets();
+    let Some(hb) = w.get(o2.header as usize..o2.payload as usize).map(|x| x.to_vec()) else { return e };
+    let mut all = hb.clone();
+    all.extend_from_slice(&e[p0..]);
+    let s0 = o.signature_header as usize;
+    let pos = entry_pos(&e, s0, SIG_SHA256, 6);
+    patch(&mut e, pos, hex::encode(sha2::Sha256::digest(&hb)).as_bytes(), true);
+    let pos = entry_pos(&e, s0, SIG_SHA1, 6);
+    patch(&mut e, pos, hex::encode(sha1::Sha1::digest(&hb)).as_bytes(), true);
+    let pos = entry_pos(&e, s0, SIG_MD5, 7);
+    patch(&mut e, pos, &md5::Md5::digest(&all), false);
+    e
+}
+
 pub fn eval(op: &str, a: &[&str]) -> Option<String> {
     match op {
         "vsig" => Some(vsig(a[0], &arg_bytes(a[2]))),
+        "forge02" => {
+            let b = arg_bytes(a[5]);
+            let e = forge(&b, a[1].parse().ok()?, a[2].parse().ok()?, &unhx(a[3]));
+            Some(format!("{} forged={:016x}", verify_real(a[0], &e)?, fnv(&e)))
+        }
         "vorig" => verify_real(a[0], &arg_bytes(a[1])),
         "vobs" => verify_real(a[0], &arg_bytes(a[2])),
         "sigpkts" => sigpkts(a[0], &arg_bytes(a[5]), &arg_bytes(a[6])),
@@ -174,14 +306,25 @@ fn b64_decode(text: &[u8]) -> Option<Vec<u8>> {
     .unwrap_or(None)
 }
 
-/// OPENPGP entry texts: 0,1 well-formed; 2 invalid characters; 3 empty; 4 well-formed with line breaks;
-/// then (thorough / random): valid prefix + garbage, truncated quantum, padding only, blanks only, leading blank,
-/// '=' in the middle, URL-safe alphabet, very long
+thread_local! {
+    /// a REAL signature packet (Ed25519 test key over a fixed message; the algorithm is deterministic): `signature_key_ids`
+    /// gets past such an entry, so that a malformed text BEHIND it reaches the second base64 decoder (`package.rs:297`)
+    static REAL_SIG: Vec<u8> = sign_with(&KEYS[0], b"vsig: a real signature among the entries").unwrap_or_else(|| vec![0xB1, 2, 3, 4, 5]);
+}
+fn real_sig() -> Vec<u8> { REAL_SIG.with(|s| s.clone()) }
+
+/// OPENPGP entry texts: 0 well-formed (garbage packet), 1 well-formed (a REAL signature packet); 2 invalid characters; 3 empty;
+/// 4 well-formed with line breaks; then (thorough / random): valid prefix + garbage, truncated quantum, padding only,
+/// blanks only, leading blank, '=' in the middle, URL-safe alphabet, very long, the real signature broken into lines /
+/// followed by garbage / cut inside a quantum
 const N_KINDS_Q: usize = 5;
 fn entry_text(kind: usize) -> Vec<u8> {
     match kind {
         0 => b"oQID".to_vec(),
-        1 => b"sQIDBAU=".to_vec(),
+        1 => b64_encode(&real_sig()),
+        13 => { let t = b64_encode(&real_sig()); let mut v = Vec::new(); for c in t.chunks(20) { v.extend_from_slice(c); v.extend_from_slice(b"\r\n"); } v }
+        14 => { let mut t = b64_encode(&real_sig()); t.extend_from_slice(b"$$$"); t }
+        15 => { let t = b64_encode(&real_sig()); t[..t.len() - 3].to_vec() }
         2 => b"!!not*base64!!".to_vec(),
         3 => vec![],
         4 => b"wQID\nBAUG\r\n".to_vec(),
@@ -202,7 +345,7 @@ fn entry_text(kind: usize) -> Vec<u8> {
         }
     }
 }
-const N_KINDS: usize = 13;
+const N_KINDS: usize = 16;
 
 /// state of the OPENPGP slot
 #[derive(Clone, Debug)]
@@ -405,10 +548,27 @@ fn max_consults(s: &Shape) -> usize {
     n(&s.o).max(s.o_dup.as_ref().map(n).unwrap_or(0)).max(3)
 }
 
+/// PKTTABLE of `vsig`: the one real signature packet the entry texts can hold (issuers and algorithm asked from the `pgp`
+/// crate directly; no certificate: the recording verifier decides by script)
+fn vsig_pkt_table() -> String {
+    thread_local! { static T: String = vsig_pkt_table_uncached(); }
+    T.with(|t| t.clone())
+}
+fn vsig_pkt_table_uncached() -> String {
+    let sig = real_sig();
+    match parse_one_packet(&sig) {
+        None => "-".to_string(),
+        Some(s) => {
+            let iss: Vec<String> = s.issuer().iter().map(|k| hex::encode(k.as_ref())).collect();
+            format!("{}=S/{}/{}/0", hx_dot(&sig), if iss.is_empty() { "-".to_string() } else { iss.join("+") }, u8::from(s.config.pub_alg))
+        }
+    }
+}
+
 fn emit_shape(ctx: &mut Ctx, seed: u64, s: &Shape, pattern: &str) {
     let mut r = Rng::new(seed);
     let (bytes, texts) = build_shape(&mut r, s);
-    ctx.req(&format!("vsig {} {} {}", pattern, table_of(&texts), hx(&bytes)));
+    ctx.req(&format!("vsig {} {} {} {}", pattern, table_of(&texts), hx(&bytes), vsig_pkt_table()));
 }
 
 fn patterns(n: usize) -> Vec<String> {
@@ -529,11 +689,7 @@ fn sigpkts(key: &str, blob: &[u8], bytes: &[u8]) -> Option<String> {
         Ok(p) => p,
         Err(_) => return Some("parse-err".into()),
     };
-    let ids = match p.signature_key_ids() {
-        Ok(v) if v.is_empty() => "none".to_string(),
-        Ok(v) => v.join("+"),
-        Err(_) => "err".to_string(),
-    };
+    let ids = key_ids_obs(&p);
     let ver = with_verifier(key, |v| if p.verify_signature(v).is_ok() { "ok" } else { "err" })?;
     let build = match rpm::SignatureHeaderBuilder::new().add_openpgp_signature(blob.to_vec()).build() {
         Err(_) => "err",
@@ -590,18 +746,19 @@ impl Cert {
     }
 }
 
-/// PKTTABLE entry of one packet
-fn pkt_entry(cert: &Cert, packet: &[u8], data: &[u8]) -> String {
+/// PKTTABLE entry of one packet: `N`, or `S/<issuers>/<alg>/<bits over the header>/<bits over header ++ payload>`
+fn pkt_entry(cert: &Cert, packet: &[u8], data: &[u8], data_all: &[u8]) -> String {
     match parse_one_packet(packet) {
         None => format!("{}=N", hx_dot(packet)),
         Some(sig) => {
             let iss: Vec<String> = sig.issuer().iter().map(|k| hex::encode(k.as_ref())).collect();
             format!(
-                "{}=S/{}/{}/{}",
+                "{}=S/{}/{}/{}/{}",
                 hx_dot(packet),
                 if iss.is_empty() { "-".to_string() } else { iss.join("+") },
                 u8::from(sig.config.pub_alg),
-                cert.bits(&sig, data)
+                cert.bits(&sig, data),
+                cert.bits(&sig, data_all)
             )
         }
     }
@@ -769,7 +926,7 @@ pub fn packet_blobs_all_keys(seed: u64) -> Vec<PktBlob> {
 pub fn b64_text(b: &[u8]) -> Vec<u8> { b64_encode(b) }
 
 fn emit_sigpkts(ctx: &mut Ctx, seed: u64, sn: u64, si: u64, idx: &mut u64) {
-    // one unsigned main header for all keys; every signature is made over its bytes
+    // one unsigned main header for all keys; every signature is made over its bytes (or over header ++ payload, for RPMSIGTAG_PGP)
     let mut r = Rng::new(seed ^ 0x6_3333);
     let payload = r.bytes(24);
     let main: Vec<Ent> = vec![
@@ -780,24 +937,43 @@ fn emit_sigpkts(ctx: &mut Ctx, seed: u64, sn: u64, si: u64, idx: &mut u64) {
     ];
     let hdr = header_of(&main);
     let hb = hdr.bytes();
+    let mut all = hb.clone();
+    all.extend_from_slice(&payload);
     let lead = gen_lead(&mut r, false);
     let digest: Ent = (SIG_SHA256, 6, TData::Str(hex::encode(sha2::Sha256::digest(&hb)).into_bytes()));
     let good: Vec<Option<Vec<u8>>> = KEYS.iter().map(|k| sign_with(k, &hb)).collect();
+    let good_all: Vec<Option<Vec<u8>>> = KEYS.iter().map(|k| sign_with(k, &all)).collect();
     for (ki, key) in KEYS.iter().enumerate() {
         let label_fail = |ctx: &mut Ctx, why: &str| ctx.emit(&format!("sigpkts {} {} - - - - -", key.0, why), "cannot-build");
         let (Some(a), Some(b)) = (good[ki].clone(), good[(ki + 1) % KEYS.len()].clone()) else { label_fail(ctx, "cannot-sign"); continue };
+        let (Some(a_all), Some(b_all)) = (good_all[ki].clone(), good_all[(ki + 1) % KEYS.len()].clone()) else { label_fail(ctx, "cannot-sign"); continue };
         let Some(e) = sign_with(key, &[]) else { label_fail(ctx, "cannot-sign"); continue };
         let Some(cert) = Cert::load(key.2) else { label_fail(ctx, "cannot-load-certificate"); continue };
         let sub = if key.0 == "rsa_test" {
             match (subkey_signature(&hb, false), subkey_signature(&hb, true)) { (Some(x), Some(y)) => Some((x, y)), _ => None }
         } else { None };
+        let sub_all = if key.0 == "rsa_test" {
+            match (subkey_signature(&all, false), subkey_signature(&all, true)) { (Some(x), Some(y)) => Some((x, y)), _ => None }
+        } else { None };
         let kids: Vec<String> = cert.kids().iter().map(|k| hex::encode(k)).collect();
+        let table_of_packets = |packets: &[Vec<u8>]| -> String {
+            let mut seen: Vec<&Vec<u8>> = Vec::new();
+            let mut entries: Vec<String> = Vec::new();
+            for p in packets {
+                if seen.contains(&p) { continue; }
+                seen.push(p);
+                entries.push(pkt_entry(&cert, p, &hb, &all));
+            }
+            if entries.is_empty() { "-".to_string() } else { entries.join(",") }
+        };
         let blobs = packet_blobs(&mut Rng::new(seed ^ 0x6_3333 ^ ((ki as u64) << 16)), &a, &b, &e, sub.as_ref().map(|(x, y)| (&x[..], &y[..])));
         for (bi, pb) in blobs.iter().enumerate() {
             let blob = pb.bytes();
-            // placements: the OPENPGP string array (base64 text) always; the legacy binary tags and a two-entry array for some
+            // placements: the OPENPGP string array (base64 text) always; the legacy binary tags and a two-entry array for some;
+            // a signature whose issuer is listed twice under EVERY legacy tag (`package.rs:350-353`)
             let mut placements: Vec<&str> = vec!["openpgp"];
-            match bi % 4 { 0 => placements.push("rsa"), 1 => placements.push("dsa"), 2 => placements.push("openpgp2"), _ => {} }
+            if pb.label.contains("issuer-twice") { placements.extend(["rsa", "dsa", "pgp"]); }
+            else { match bi % 4 { 0 => placements.push("rsa"), 1 => placements.push("dsa"), 2 => placements.push("openpgp2"), _ => {} } }
             for pl in placements {
                 *idx += 1;
                 if (*idx - 1) % sn != si { continue; }
@@ -813,19 +989,72 @@ fn emit_sigpkts(ctx: &mut Ctx, seed: u64, sn: u64, si: u64, idx: &mut u64) {
                         vec![(SIG_OPENPGP, 8, TData::Strs(texts.clone())), digest.clone()]
                     }
                     "rsa" => vec![(SIG_RSA, 7, TData::Bytes(blob.clone())), digest.clone()],
+                    "pgp" => vec![(SIG_PGP, 7, TData::Bytes(blob.clone())), digest.clone()],
                     _ => vec![(SIG_DSA, 7, TData::Bytes(blob.clone())), digest.clone()],
                 };
-                if (pl == "rsa" || pl == "dsa") && blob.is_empty() { continue; }
+                if pl != "openpgp" && pl != "openpgp2" && blob.is_empty() { continue; }
                 let pkg = assemble(&lead, &header_of(&sig), 0, &hdr, &payload);
-                let mut seen: Vec<&Vec<u8>> = Vec::new();
-                let mut entries: Vec<String> = Vec::new();
-                for p in &packets {
-                    if seen.contains(&p) { continue; }
-                    seen.push(p);
-                    entries.push(pkt_entry(&cert, p, &hb));
+                ctx.req(&format!("sigpkts {} {}@{} {} {} {} {} {}", key.0, pb.label, pl, kids.join(","), table_of_packets(&packets), table_of(&texts), hx(&blob), hx(&pkg)));
+            }
+        }
+        // RPMSIGTAG_PGP: the legacy header+payload signature. The same compositions over signatures made for header ++ payload,
+        // stored as the binary under tag 1002: the real verifier is handed `Cursor(header).chain(Cursor(content))` and ACCEPTS
+        // where the first signature packet is the good one (`package.rs:418-426`)
+        let blobs_all = packet_blobs(&mut Rng::new(seed ^ 0x6_3333 ^ ((ki as u64) << 16) ^ 0x1002), &a_all, &b_all, &e,
+            sub_all.as_ref().map(|(x, y)| (&x[..], &y[..])));
+        for pb in blobs_all.iter() {
+            let blob = pb.bytes();
+            *idx += 1;
+            if (*idx - 1) % sn != si || blob.is_empty() { continue; }
+            let sig: Vec<Ent> = vec![(SIG_PGP, 7, TData::Bytes(blob.clone())), digest.clone()];
+            let pkg = assemble(&lead, &header_of(&sig), 0, &hdr, &payload);
+            ctx.req(&format!("sigpkts {} {}@pgpall {} {} - {} {}", key.0, pb.label, kids.join(","), table_of_packets(&pb.packets), hx(&blob), hx(&pkg)));
+        }
+        // three DIFFERENT blobs under RSA, DSA and PGP at once: `verify_signature` consults DSA, RSA (header) and PGP (header ++
+        // payload) in that order and all must be accepted; `signature_key_ids` reports the LAST readable tag's signature
+        // (RSA, then DSA, then PGP overrides), even when that one holds no signature packet or names two issuers
+        let uid: Vec<u8> = vec![0xb4, 3, b'a', b'b', b'c'];
+        let junk_a: Vec<u8> = [uid.clone(), a.clone()].concat();
+        let a_re = reframe(&a, "old4").unwrap_or_else(|| a.clone());
+        let nosig: Vec<u8> = [uid.clone(), vec![0xca, 3, b'P', b'G', b'P']].concat();
+        let mut triples: Vec<(&str, Vec<u8>, Vec<u8>, Vec<u8>)> = vec![
+            ("all-good", a.clone(), junk_a.clone(), a_all.clone()),
+            ("rsa-other-key", b.clone(), a.clone(), a_all.clone()),
+            ("pgp-other-key", a.clone(), a_re.clone(), b_all.clone()),
+            ("pgp-no-signature-packet", a.clone(), b.clone(), nosig.clone()),
+            ("pgp-header-only-signature", a_re.clone(), junk_a.clone(), a.clone()),
+            ("dsa-empty-message", a.clone(), e.clone(), a_all.clone()),
+            ("rsa-no-signature-packet", nosig.clone(), a.clone(), a_all.clone()),
+            ("rsa-dsa-swapped-data", a_all.clone(), a.clone(), a_all.clone()),
+        ];
+        if let (Some((_, s2)), Some((s1a, s2a))) = (sub.as_ref(), sub_all.as_ref()) {
+            triples.push(("pgp-subkeysig-issuer-twice", a.clone(), a_re.clone(), s2a.clone()));
+            triples.push(("pgp-subkeysig", a.clone(), a_re.clone(), s1a.clone()));
+            triples.push(("rsa-subkeysig-issuer-twice", s2.clone(), a.clone(), a_all.clone()));
+        }
+        for (label, x_rsa, x_dsa, x_pgp) in triples {
+            // subsets too: which of the three tags is present (the PGP one always: it is what the two functions treat differently)
+            for mask in [7u32, 5, 6, 4] {
+                *idx += 1;
+                if (*idx - 1) % sn != si { continue; }
+                let mut sig: Vec<Ent> = Vec::new();
+                let mut blobs3: Vec<&Vec<u8>> = Vec::new();
+                if mask & 1 != 0 { sig.push((SIG_RSA, 7, TData::Bytes(x_rsa.clone()))); blobs3.push(&x_rsa); }
+                if mask & 2 != 0 { sig.push((SIG_DSA, 7, TData::Bytes(x_dsa.clone()))); blobs3.push(&x_dsa); }
+                sig.push((SIG_PGP, 7, TData::Bytes(x_pgp.clone()))); blobs3.push(&x_pgp);
+                sig.push(digest.clone());
+                // the packets the three blobs consist of (the harness's own framing of what it put together)
+                let mut packets: Vec<Vec<u8>> = Vec::new();
+                for bl in blobs3 {
+                    let mut rest: &[u8] = &bl[..];
+                    while let Some((h, n)) = frame_of(rest) {
+                        if h + n > rest.len() || h + n == 0 { break; }
+                        packets.push(rest[..h + n].to_vec());
+                        rest = &rest[h + n..];
+                    }
                 }
-                let table = if entries.is_empty() { "-".to_string() } else { entries.join(",") };
-                ctx.req(&format!("sigpkts {} {}@{} {} {} {} {} {}", key.0, pb.label, pl, kids.join(","), table, table_of(&texts), hx(&blob), hx(&pkg)));
+                let pkg = assemble(&lead, &header_of(&sig), 0, &hdr, &payload);
+                ctx.req(&format!("sigpkts {} {}@legacy3-{} {} {} - {} {}", key.0, label, mask, kids.join(","), table_of_packets(&packets), hx(&x_pgp), hx(&pkg)));
             }
         }
     }
@@ -1048,6 +1277,10 @@ pub fn gen(ctx: &mut Ctx) {
                     ins.extend_from_slice(&new_index);
                     ins.extend_from_slice(&new_store);
                     if mine!() { ctx.req(&format!("vedit {} {} {} {} {}", key.0, h0 + 8, 8 + 16 * n + dl, hx(&ins), arg)); }
+                    if mine!() { ctx.req(&format!("forge02 {} {} {} {} {} {}", key.0, h0 + 8, 8 + 16 * n + dl, hx(&ins),
+                        table_of(&rpm::Package::parse(&mut &pkg[..]).ok()
+                            .and_then(|p| p.metadata.signature.get_entry_data_as_string_array(rpm::IndexSignatureTag::RPMSIGTAG_OPENPGP).ok().map(|v| v.iter().map(|t| t.as_bytes().to_vec()).collect::<Vec<_>>()))
+                            .unwrap_or_default()), arg)); }
                 }
             }
         }
@@ -1055,6 +1288,48 @@ pub fn gen(ctx: &mut Ctx) {
         for k in [1usize, 2, 7, 64] {
             let ins = r.bytes(k);
             if mine!() { ctx.req(&format!("vedit {} {} 0 {} {}", key.0, hi, hx(&ins), arg)); }
+        }
+
+        /* ---------------- (b2) right key, different data: the same kinds of edits, but every recorded digest is RECOMPUTED
+           afterwards (`forge`), so `verify_digests` passes and only the signature check is left to refuse ---------------- */
+        let texts: Vec<Vec<u8>> = rpm::Package::parse(&mut &pkg[..]).ok()
+            .and_then(|p| p.metadata.signature.get_entry_data_as_string_array(rpm::IndexSignatureTag::RPMSIGTAG_OPENPGP).ok().map(|v| v.iter().map(|t| t.as_bytes().to_vec()).collect()))
+            .unwrap_or_default();
+        let tbl = table_of(&texts);
+        if mine!() { ctx.req(&format!("forge02 {} 0 0 - {} {}", key.0, tbl, arg)); }
+        // 1-bit edits across the WHOLE main header (quick: every 7th bit, phase from the seed; thorough: every bit)
+        let step = ctx.q(7u64, 1);
+        let mut bit = o[2] * 8 + (seed + ki as u64) % step;
+        while bit < o[3] * 8 {
+            let off = (bit / 8) as usize;
+            if mine!() { ctx.req(&format!("forge02 {} {} 1 {} {} {}", key.0, off, hx(&[pkg[off] ^ (0x80u8 >> (bit % 8))]), tbl, arg)); }
+            bit += step;
+        }
+        // … and across the payload (the forger then rewrites PAYLOADDIGEST, i.e. the signed header)
+        let step = ctx.q(13u64, 1);
+        let mut bit = o[3] * 8 + (seed + ki as u64) % step;
+        while bit < o[4] * 8 {
+            let off = (bit / 8) as usize;
+            if mine!() { ctx.req(&format!("forge02 {} {} 1 {} {} {}", key.0, off, hx(&[pkg[off] ^ (0x80u8 >> (bit % 8))]), tbl, arg)); }
+            bit += step;
+        }
+        // random multi-byte edits
+        let mut r = Rng::new(seed ^ 0xF02E ^ ((ki as u64) << 32));
+        for _ in 0..ctx.q(150u64, 3000) {
+            let off = lo + r.below(hi - lo);
+            let k = 1 + r.below(8);
+            let (del, ins): (u64, Vec<u8>) = match r.below(7) {
+                0 | 1 | 2 => (k.min(hi - off), r.bytes(k.min(hi - off) as usize)),
+                3 => (k.min(hi - off), vec![]),
+                4 => (0, r.bytes(k as usize)),
+                5 => (hi - off, vec![]),
+                _ => (0, vec![0u8; k as usize]),
+            };
+            if mine!() { ctx.req(&format!("forge02 {} {} {} {} {} {}", key.0, off, del, hx(&ins), tbl, arg)); }
+        }
+        for k in [1usize, 2, 7, 64] {
+            let ins = r.bytes(k);
+            if mine!() { ctx.req(&format!("forge02 {} {} 0 {} {} {}", key.0, hi, hx(&ins), tbl, arg)); }
         }
     }
 }
